@@ -1171,28 +1171,37 @@ fn check_copies(
             continue;
         }
         multi += 1;
-        let a = rs[0];
-        for b in &rs[1..] {
+        // copies per trace id: where one trace holds several copies of the entity, what is mounted
+        // on them is subject to a recorded finding; those copies are compared structurally only
+        let mut per_trace: HashMap<u128, usize> = HashMap::new();
+        for r in rs.iter() {
+            *per_trace.entry(r.trace_id.0).or_insert(0) += 1;
+        }
+        let single = |r: &SpanRecord| per_trace[&r.trace_id.0] == 1;
+        let a = rs.iter().copied().find(|r| single(r)).unwrap_or(rs[0]);
+        for b in rs.iter().copied() {
+            if std::ptr::eq(a, b) {
+                continue;
+            }
             cn.copy_checks += 1;
-            let same_trace = a.trace_id == b.trace_id;
             let dur_ok = a.duration_ns.abs_diff(b.duration_ns) <= 2;
             let structural = a.span_id == b.span_id && a.name == b.name;
-            // events/properties mounted on copies in one trace suffer from the known defect
             let content = a.properties == b.properties
                 && a.events.len() == b.events.len()
                 && a.events.iter().zip(b.events.iter()).all(|(x, y)| x.name == y.name && x.properties == y.properties);
             // thread-safe spans: what is mounted on a copy depends on that copy's trace (C06
             // provisos), so content is compared for local spans only
             let content = content || matches!(ent, Ent::S(_));
-            if !structural || !dur_ok || (!content && !same_trace) {
+            let reliable = single(a) && single(b);
+            if !structural || !dur_ok || (!content && reliable) {
                 v(
                     out,
                     Cat::CopyDiff,
                     "copies-differ",
                     format!("copies of {:?} differ: ids {:x}/{:x}, durations {}/{}, props {}/{}, events {}/{}", ent, a.span_id.0, b.span_id.0, a.duration_ns, b.duration_ns, a.properties.len(), b.properties.len(), a.events.len(), b.events.len()),
                 );
-            } else if !content && same_trace {
-                v(out, Cat::CopyDiff, "dup-attach-same-trace-parents", format!("copies of {:?} in one trace differ in mounted events/properties", ent));
+            } else if !content {
+                v(out, Cat::CopyDiff, "dup-attach-same-trace-parents", format!("copies of {:?} within one trace differ in mounted events/properties", ent));
             }
         }
     }
